@@ -343,7 +343,9 @@ func c04PathsOpt(c *core.Ctx, fn *ssa.Function, inlineHelpers bool) ([]c04path, 
 	if inlineHelpers {
 		cfg.MaxDepth = 2
 		cfg.Inline = func(call *ssa.Call, callee *ssa.Function) bool {
-			return callee.Pkg == fn.Pkg && callee.Object() != nil && !callee.Object().Exported() && callee.Signature.Recv() == nil && len(callee.Blocks) > 0 &&
+			// unexported functions, and unexported methods called on the entry point's own receiver (fail / succeed helpers)
+			ownMethod := callee.Signature.Recv() != nil && fn.Signature.Recv() != nil && len(call.Call.Args) > 0 && len(fn.Params) > 0 && call.Call.Args[0] == ssa.Value(fn.Params[0]) && callee.Name() != "Name"
+			return callee.Pkg == fn.Pkg && callee.Object() != nil && !callee.Object().Exported() && (callee.Signature.Recv() == nil || ownMethod) && len(callee.Blocks) > 0 &&
 				callee.Name() != "splitWithUDHI" && callee.Name() != "encodeAndSplitGSM7Packed" && callee.Name() != "newBatchEncoder"
 		}
 	}
